@@ -304,4 +304,277 @@ theorem runProgram_model {cfg : Cfg} {E : OperatorSet → OperatorSet → Prop} 
   cases hv2; cases hk2
   rfl
 
+/-! ### `ChiaDialect::op` and the cost model -/
+
+/-- the flag an operator set adds (`ChiaDialect::op`) -/
+def extBits : OperatorSet → Nat
+  | .Default => 0
+  | .Bls => 0
+  | .Keccak => Gen.FLAG_ENABLE_KECCAK_OPS_OUTSIDE_GUARD
+  | .PreHardFork => Gen.FLAG_ENABLE_KECCAK_OPS_OUTSIDE_GUARD
+
+/-- the operator set only matters through the flag it adds -/
+theorem chiaOp_ext (cfg : Cfg) (extra : String → Option OpFn) (dflags : Flags) (o args : Val) (m : Nat)
+    (ext : OperatorSet) (c : Ctr) :
+    chiaOp cfg extra dflags o args m ext c = chiaOp cfg extra (dflags ||| extBits ext) o args m .Default c := by
+  unfold chiaOp
+  simp only [Nat.or_zero]
+  cases ext <;> rfl
+
+theorem chiaOpTable_req_ncm : ∀ e ∈ Gen.chiaOpTable, Gen.FLAG_NEW_COST_MODEL &&& e.2.2 = 0 := by decide
+
+theorem lookupOp_req_ncm {op : Nat} {name : String} {req : Nat}
+    (h : lookupOp Gen.chiaOpTable op = some (name, req)) : Gen.FLAG_NEW_COST_MODEL &&& req = 0 := by
+  unfold lookupOp at h
+  cases hf : Gen.chiaOpTable.find? (fun e => e.1 == op) with
+  | none => simp [hf] at h
+  | some e =>
+    simp only [hf, Option.map_some, Option.some.injEq] at h
+    have := chiaOpTable_req_ncm e (List.mem_of_find?_eq_some hf)
+    rw [h] at this
+    exact this
+
+theorem call_modelIndep {cfg : Cfg} {extra : String → Option OpFn}
+    (hextra : ∀ name f, extra name = some f → OpModelIndep f)
+    {K : Nat} (hK : hasFlag K Gen.FLAG_NEW_COST_MODEL = false) {name : String} {m m' : Nat} {args : Val} {c : Ctr}
+    {r r' : Nat × Val × Ctr}
+    (h : (match coreOpByName cfg name with
+      | some f => some (f K m args c)
+      | none => match extra name with
+        | some f => some (f K m args c)
+        | none => none) = some (.ok r))
+    (h' : (match coreOpByName cfg name with
+      | some f => some (f (K ||| Gen.FLAG_NEW_COST_MODEL) m' args c)
+      | none => match extra name with
+        | some f => some (f (K ||| Gen.FLAG_NEW_COST_MODEL) m' args c)
+        | none => none) = some (.ok r')) : r.2 = r'.2 := by
+  cases h1 : coreOpByName cfg name with
+  | some f =>
+    simp only [h1, Option.some.injEq] at h h'
+    exact coreOps_modelIndep h1 K m m' args c r r' hK h h'
+  | none =>
+    simp only [h1] at h h'
+    cases h2 : extra name with
+    | some f =>
+      simp only [h2, Option.some.injEq] at h h'
+      exact hextra name f h2 K m m' args c r r' hK h h'
+    | none => simp [h2] at h
+
+theorem unknownOperator_modelIndep {ob : Bytes} {args : Val} {K m m' : Nat} {c : Ctr} {r r' : Nat × Val × Ctr}
+    (hK : hasFlag K Gen.FLAG_NEW_COST_MODEL = false)
+    (h : unknownOperator ob args K m c = .ok r)
+    (h' : unknownOperator ob args (K ||| Gen.FLAG_NEW_COST_MODEL) m' c = .ok r') : r.2 = r'.2 := by
+  unfold unknownOperator at h h'
+  split at h
+  · cases h
+  · split at h'
+    · cases h'
+    · exact opUnknown_modelIndep ob K m m' args c r r' hK h h'
+
+/-- **C11 through `ChiaDialect::op`** (outside guards; inside them see `chiaOp_ext`) -/
+theorem chiaOp_modelIndep (cfg : Cfg) (extra : String → Option OpFn)
+    (hextra : ∀ name f, extra name = some f → OpModelIndep f)
+    (K : Nat) (hK : hasFlag K Gen.FLAG_NEW_COST_MODEL = false) (o args : Val) (m m' : Nat) (c : Ctr)
+    (r r' : Nat × Val × Ctr)
+    (h : chiaOp cfg extra K o args m .Default c = some (.ok r))
+    (h' : chiaOp cfg extra (K ||| Gen.FLAG_NEW_COST_MODEL) o args m' .Default c = some (.ok r')) : r.2 = r'.2 := by
+  simp only [chiaOp, Nat.or_zero] at h h'
+  cases o with
+  | pair l r => simp at h
+  | atom ob inl =>
+    simp only at h h'
+    have hunk : ∀ {x y : Option OpRes}, x = some (unknownOperator ob args K m c) →
+        y = some (unknownOperator ob args (K ||| Gen.FLAG_NEW_COST_MODEL) m' c) →
+        x = some (.ok r) → y = some (.ok r') → r.2 = r'.2 := by
+      intro x y hx hy hx' hy'
+      rw [hx] at hx'; rw [hy] at hy'
+      exact unknownOperator_modelIndep hK (Option.some.inj hx') (Option.some.inj hy')
+    by_cases h4 : (ob.length == 4) = true
+    · simp only [h4, ↓reduceIte] at h h'
+      split at h
+      · rename_i heq; simp only [heq] at h'; exact call_modelIndep hextra hK h h'
+      · rename_i heq; simp only [heq] at h'; exact hunk rfl rfl h h'
+    · simp only [h4, ↓reduceIte, Bool.false_eq_true] at h h'
+      by_cases h1 : (ob.length != 1) = true
+      · simp only [h1, ↓reduceIte] at h h'; exact hunk rfl rfl h h'
+      · simp only [h1, ↓reduceIte, Bool.false_eq_true] at h h'
+        cases hs : smallNumber (.atom ob inl) with
+        | none => simp only [hs] at h h'; exact hunk rfl rfl h h'
+        | some op =>
+          simp only [hs] at h h'
+          cases hl : lookupOp Gen.chiaOpTable op with
+          | none => simp only [hl] at h h'; exact hunk rfl rfl h h'
+          | some nr =>
+            obtain ⟨name, req⟩ := nr
+            simp only [hl] at h h'
+            have hreq : hasFlag (K ||| Gen.FLAG_NEW_COST_MODEL) req = hasFlag K req :=
+              hasFlag_or_newModel K req (lookupOp_req_ncm hl)
+            rw [hreq, newModel_or_newModel] at h'
+            by_cases hq : (req != 0 && !hasFlag K req) = true
+            · simp only [hq, ↓reduceIte] at h h'; exact hunk rfl rfl h h'
+            · simp only [hq, ↓reduceIte, Bool.false_eq_true] at h h'
+              simp only [Bool.not_true, Bool.and_false, Bool.false_eq_true, ↓reduceIte] at h'
+              split at h
+              · cases h
+              · exact call_modelIndep hextra hK h h'
+
+/-! ### the instance -/
+
+theorem or_self_bit (X k : Nat) (h : X.testBit k = true) : X ||| 2 ^ k = X := by
+  apply Nat.eq_of_testBit_eq
+  intro j
+  rw [Nat.testBit_or, Nat.testBit_two_pow]
+  by_cases hj : k = j
+  · subst hj; simp [h]
+  · simp [hj]
+
+/-- the `LIMITS` bit of `F`, as a restriction set -/
+def limitsPart (F : Nat) : Nat := if F.testBit 6 then 2 ^ 6 else 0
+
+theorem limitsPart_restr (F : Nat) : limitsPart F &&& restrictionBits = limitsPart F := by
+  unfold limitsPart; split <;> decide
+
+theorem clr_or_limitsPart (F : Nat) : clrLimits F ||| limitsPart F = F := by
+  apply Nat.eq_of_testBit_eq
+  intro j
+  rw [Nat.testBit_or, testBit_clrLimits]
+  unfold limitsPart
+  cases h6 : F.testBit 6
+  · simp only [Bool.false_eq_true, ↓reduceIte, Nat.zero_testBit, Bool.or_false]
+    by_cases hj : j = 6
+    · subst hj; simp [h6]
+    · have : (j == 6) = false := by simpa using hj
+      simp [this]
+  · simp only [↓reduceIte, Nat.testBit_two_pow]
+    by_cases hj : j = 6
+    · subst hj; simp [h6]
+    · have : (j == 6) = false := by simpa using hj
+      have hj' : ¬ 6 = j := fun e => hj e.symm
+      simp [this, hj']
+
+theorem normFlags_old (F : Nat) (hF : hasFlag F Gen.FLAG_NEW_COST_MODEL = false) : normFlags F = F := by
+  unfold normFlags; simp [hF]
+
+theorem normFlags_new (F : Nat) (hF : hasFlag F Gen.FLAG_NEW_COST_MODEL = false) :
+    normFlags (F ||| Gen.FLAG_NEW_COST_MODEL) = clrLimits F ||| Gen.FLAG_NEW_COST_MODEL := by
+  have h13 : Gen.FLAG_NEW_COST_MODEL = 2 ^ 13 := by decide
+  have hF13 : F.testBit 13 = false := by rw [← hasFlag_pow, ← h13]; exact hF
+  rw [h13]
+  apply Nat.eq_of_testBit_eq
+  intro j
+  rw [testBit_normFlags, Nat.testBit_or, Nat.testBit_or, Nat.testBit_or, testBit_clrLimits, Nat.testBit_two_pow,
+    Nat.testBit_two_pow]
+  simp only [decide_true, Bool.or_true, Bool.and_true]
+  by_cases hj : j = 6
+  · subst hj; simp
+  · have : (j == 6) = false := by simpa using hj
+    simp [this]
+
+/-- `ChiaDialect::new(F)` against `ChiaDialect::new(F ∪ NEW_COST_MODEL)` when keccak is enabled
+outside guards: every operator set then enables the same operators -/
+theorem chiaDialect_modelRel (cfg : Cfg) (extra : String → Option OpFn)
+    (hmi : ∀ name f, extra name = some f → OpModelIndep f)
+    (hre : ∀ name f, extra name = some f → OpRestrict f)
+    (F : Nat) (hF : hasFlag F Gen.FLAG_NEW_COST_MODEL = false)
+    (hKec : hasFlag F Gen.FLAG_ENABLE_KECCAK_OPS_OUTSIDE_GUARD = true) :
+    DialectModelRel (fun _ _ => True) (chiaDialect cfg extra F)
+      (chiaDialect cfg extra (F ||| Gen.FLAG_NEW_COST_MODEL)) := by
+  have hb : ∀ k, k ≠ 6 → Gen.FLAG_NEW_COST_MODEL &&& 2 ^ k = 0 →
+      hasFlag (normFlags F) (2 ^ k) = hasFlag (normFlags (F ||| Gen.FLAG_NEW_COST_MODEL)) (2 ^ k) := by
+    intro k hk hd
+    rw [hasFlag_normFlags _ _ hk, hasFlag_normFlags _ _ hk, hasFlag_or_newModel _ _ hd]
+  have hcanon : hasFlag (normFlags F) Gen.FLAG_CANONICAL_INTS =
+      hasFlag (normFlags (F ||| Gen.FLAG_NEW_COST_MODEL)) Gen.FLAG_CANONICAL_INTS := hb 0 (by decide) (by decide)
+  refine
+    { default := trivial, quoteKw := rfl, applyKw := rfl, softforkKw := rfl
+      gcCandidate := gcCandidate_chia_eq (hb 5 (by decide) (by decide))
+      allowUnknownOps := ?_
+      limitSoftfork := hb 4 (by decide) (by decide)
+      uint := fun v => uintAtom_flags 8 v "softfork" _ _ hcanon
+      parse := ?_
+      op := ?_ }
+  · show (!hasFlag (normFlags F) Gen.FLAG_NO_UNKNOWN_OPS) = (!hasFlag (normFlags (F ||| Gen.FLAG_NEW_COST_MODEL)) Gen.FLAG_NO_UNKNOWN_OPS)
+    have hunk : hasFlag (normFlags F) Gen.FLAG_NO_UNKNOWN_OPS =
+        hasFlag (normFlags (F ||| Gen.FLAG_NEW_COST_MODEL)) Gen.FLAG_NO_UNKNOWN_OPS := hb 1 (by decide) (by decide)
+    rw [hunk]
+  · intro ol
+    unfold parseSoftforkArguments
+    cases getArgs4 ol "softfork" with
+    | error e => trivial
+    | ok q =>
+      obtain ⟨a1, a2, a3, a4⟩ := q
+      simp only [chiaDialect_flags]
+      rw [← uintAtom_flags 4 a2 "softfork" _ _ hcanon]
+      cases uintAtom 4 a2 "softfork" (normFlags F) with
+      | error e => trivial
+      | ok n =>
+        simp only
+        have h1 : (chiaDialect cfg extra F).softforkExtension n =
+            (if n == 0 then .Bls else if n == 1 then .Keccak else .Default) := by
+          show (if hasFlag (normFlags F) Gen.FLAG_NEW_COST_MODEL = true then _ else _) = _
+          rw [(nf_flag F).2.2.2.2.1, hF]; rfl
+        have h2 : (chiaDialect cfg extra (F ||| Gen.FLAG_NEW_COST_MODEL)).softforkExtension n =
+            (if n == 0 || n == 1 then .PreHardFork else .Default) := by
+          show (if hasFlag (normFlags (F ||| Gen.FLAG_NEW_COST_MODEL)) Gen.FLAG_NEW_COST_MODEL = true then _ else _) = _
+          rw [(nf_flag _).2.2.2.2.1]
+          have : hasFlag (F ||| Gen.FLAG_NEW_COST_MODEL) Gen.FLAG_NEW_COST_MODEL = true := newModel_or_newModel F
+          rw [this]; rfl
+        rw [h1, h2]
+        by_cases hn0 : (n == 0) = true
+        · simp [hn0]
+        · by_cases hn1 : (n == 1) = true
+          · simp [hn0, hn1]
+          · simp [hn0, hn1]
+  · intro o args m m' e1 e2 c r r' _ h h'
+    have h8 : Gen.FLAG_ENABLE_KECCAK_OPS_OUTSIDE_GUARD = 2 ^ 8 := by decide
+    have hF8 : F.testBit 8 = true := by rw [← hasFlag_pow, ← h8]; exact hKec
+    have hC8 : (clrLimits F).testBit 8 = true := by rw [testBit_clrLimits, hF8]; rfl
+    -- every operator set adds nothing to flags that already contain the keccak bit
+    have hx : ∀ (X : Nat) (e : OperatorSet), X.testBit 8 = true → X ||| extBits e = X := by
+      intro X e hX
+      cases e
+      · exact Nat.or_zero X
+      · exact Nat.or_zero X
+      · show X ||| Gen.FLAG_ENABLE_KECCAK_OPS_OUTSIDE_GUARD = X; rw [h8]; exact or_self_bit X 8 hX
+      · show X ||| Gen.FLAG_ENABLE_KECCAK_OPS_OUTSIDE_GUARD = X; rw [h8]; exact or_self_bit X 8 hX
+    have h0 : chiaOp cfg extra (normFlags F) o args m e1 c = some (.ok r) := h
+    have h0' : chiaOp cfg extra (normFlags (F ||| Gen.FLAG_NEW_COST_MODEL)) o args m' e2 c = some (.ok r') := h'
+    rw [chiaOp_ext, normFlags_old F hF, hx F e1 hF8] at h0
+    have hN8 : (clrLimits F ||| Gen.FLAG_NEW_COST_MODEL).testBit 8 = true := by
+      rw [Nat.testBit_or, hC8]; rfl
+    rw [chiaOp_ext, normFlags_new F hF, hx _ e2 hN8] at h0'
+    have hclr : hasFlag (clrLimits F) Gen.FLAG_NEW_COST_MODEL = false := by
+      have h13 : Gen.FLAG_NEW_COST_MODEL = 2 ^ 13 := by decide
+      rw [h13, hasFlag_pow, testBit_clrLimits, ← hasFlag_pow, ← h13, hF]; rfl
+    have h0r : chiaOp cfg extra (clrLimits F) o args m .Default c = some (.ok r) := by
+      rw [← clr_or_limitsPart F] at h0
+      exact chiaOp_restrict cfg extra hre (clrLimits F) (limitsPart F) (limitsPart_restr F) o args m .Default c r h0
+    exact chiaOp_modelIndep cfg extra hmi (clrLimits F) hclr o args m m' c r r' h0r h0'
+
+/-- **C11, `eval_value_model_partial`.**  For `ChiaDialect::new`, a flag set `F` without
+NEW_COST_MODEL and *with ENABLE_KECCAK_OPS_OUTSIDE_GUARD*: a program that succeeds under `F` and under
+`F ∪ NEW_COST_MODEL` — budgets, costs, fuel may differ — returns the same value and leaves the same
+allocator counters.  (The `LIMITS` normalisation of `ChiaDialect::new` is covered: under the new
+model the operators run without `LIMITS`, which can only add successes.)
+
+**What is missing for the full statement** (`F` without the keccak flag): a run that enters a
+softfork guard with extension 0.  There `keccak256` (opcode 62) is an *unknown operator* in the old
+model (`OperatorSet::Bls`) and the keccak operator in the new one (`OperatorSet::PreHardFork`), so
+the two runs are not in lock-step *inside* the guard; both guards still end in nil with the
+counters restored, so the statement is expected to hold, but the proof needs the guard as a black
+box (a frame lemma for the machine: a segment of the operation stack never touches the stacks
+below it), which is not done.  `runProgram_model` is the general lock-step theorem; the only
+hypothesis `DialectModelRel` that fails without the keccak flag is `op` for the pair
+(`Bls`, `PreHardFork`). -/
+theorem eval_value_model_partial (cfg : Cfg) (extra : String → Option OpFn)
+    (hmi : ∀ name f, extra name = some f → OpModelIndep f)
+    (hre : ∀ name f, extra name = some f → OpRestrict f)
+    (F : Nat) (hF : hasFlag F Gen.FLAG_NEW_COST_MODEL = false)
+    (hKec : hasFlag F Gen.FLAG_ENABLE_KECCAK_OPS_OUTSIDE_GUARD = true)
+    {fuel1 fuel2 : Nat} {c0 : Ctr} {p e : Val} {M1 M2 : Nat} {r1 r2 : Nat × Val × Ctr}
+    (h1 : runProgram cfg (chiaDialect cfg extra F) fuel1 c0 p e M1 = some (.ok r1))
+    (h2 : runProgram cfg (chiaDialect cfg extra (F ||| Gen.FLAG_NEW_COST_MODEL)) fuel2 c0 p e M2 = some (.ok r2)) :
+    r1.2 = r2.2 :=
+  runProgram_model (chiaDialect_modelRel cfg extra hmi hre F hF hKec) h1 h2
+
 end Clvm.Interp
